@@ -1,0 +1,131 @@
+//go:build verif
+
+// C29: configuration transactions are isolated, read their own writes and never lose updates.
+// Contracts for the deductive verifier in /verif (govc). Only compiled with -tags verif.
+//
+// The values handled here are encoding/json trees; govc has no model of JSON and treats every
+// decode (an interface-typed argument of the standard library) as a write of everything.  What
+// is stated below is therefore the pointer-level skeleton of the property: which map is patched,
+// which value is merged onto which, what is handed to the state and in which order, and the
+// exact behaviour for writes of top-level options (raw messages, no decode on the path).
+
+package config
+
+// cacheMap names the type of the write cache (and of nested written documents) for quantifiers in contracts
+type cacheMap = map[string]interface{}
+
+// ---- merging one written value onto one committed value ---------------------------------------
+
+// a raw message written in the transaction replaces the committed value as it is and nothing
+// else changes; nested writes are merged key by key onto the value that is there now
+//@ func commitChange
+//@   props C29
+//@   ensures [raw-replaces] tag(change) == tag(iface(pristine)) ==> iface(result) == change
+//@   ensures [raw-writes-no-config] tag(change) == tag(iface(pristine)) ==> forall m map[string]*json.RawMessage, k string :: has(m, k) == old(has(m, k)) && m[k] == old(m[k])
+//@   ensures [raw-writes-no-cache] tag(change) == tag(iface(pristine)) ==> forall m cacheMap, k string :: has(m, k) == old(has(m, k)) && m[k] == old(m[k])
+//@   guard call commitChange: [nested-merge-onto-latest] arg0 == pristinem[k] && arg1 == v
+
+//@ func applyChanges
+//@   props C29
+//@   guard call commitChange: [merge-onto-current-value] arg0 == config[k] && arg1 == v
+//@   loop 0: step [written-raw-replaces] tag(v) == tag(iface(config[k])) ==> has(config, k) && iface(config[k]) == v
+//@   loop 0: step [raw-write-touches-one-option] tag(v) == tag(iface(config[k])) ==> forall j string :: j != k ==> has(config, j) == old(has(config, j)) && config[j] == old(config[j])
+//@   loop 0: invariant [flat-cache-kept] old(forall k string :: has(changes, k) ==> tag(changes[k]) == tag(iface(config[k]))) ==> forall k string :: has(changes, k) == old(has(changes, k)) && changes[k] == old(changes[k])
+//@   loop 0: invariant [flat-unwritten] old(forall k string :: has(changes, k) ==> tag(changes[k]) == tag(iface(config[k]))) ==> forall k string :: !old(has(changes, k)) ==> has(config, k) == old(has(config, k)) && config[k] == old(config[k])
+//@   loop 0: invariant [flat-written] old(forall k string :: has(changes, k) ==> tag(changes[k]) == tag(iface(config[k]))) ==> forall k string :: {visited(k)} visited(k) ==> has(config, k) && iface(config[k]) == old(changes[k])
+//@   ensures [flat-unwritten-kept] old(forall k string :: has(changes, k) ==> tag(changes[k]) == tag(iface(config[k]))) ==> forall k string :: !old(has(changes, k)) ==> has(config, k) == old(has(config, k)) && config[k] == old(config[k])
+//@   ensures [flat-written-replaced] old(forall k string :: has(changes, k) ==> tag(changes[k]) == tag(iface(config[k]))) ==> forall k string :: old(has(changes, k)) ==> has(config, k) && iface(config[k]) == old(changes[k])
+
+// ---- reading ------------------------------------------------------------------------------------
+
+//@ func (*Transaction).copyPristine
+//@   props C29
+//@   ensures [fresh-map] result != nil && !old(allocated(result))
+//@   ensures [same-options] forall k string :: has(result, k) == has(t.pristine[snapName], k) && result[k] == t.pristine[snapName][k]
+//@   ensures [pristine-untouched] forall m map[string]*json.RawMessage, k string :: m != result ==> has(m, k) == old(has(m, k)) && m[k] == old(m[k])
+//@   loop 0: invariant [out] out != nil && !old(allocated(out)) && config == old(t.pristine[snapName])
+//@   loop 0: invariant [copied] forall k string :: {visited(k)} visited(k) ==> has(out, k) && out[k] == config[k]
+//@   loop 0: invariant [subset] forall k string :: has(out, k) ==> has(config, k) && out[k] == config[k]
+//@   loop 0: invariant [others] forall m map[string]*json.RawMessage, k string :: m != out ==> has(m, k) == old(has(m, k)) && m[k] == old(m[k])
+
+//@ func getFromConfig
+//@   props C29
+//@   ensures [absent-option-is-an-error] old(len(subkeys) > 0 && 0 <= pos && pos < len(subkeys) && !has(config, subkeys[pos])) ==> result != nil
+
+//@ func (*Transaction).Get
+//@   props C29
+//@   guard call mergeConfigWithExternal: [works-on-a-copy] called("copyPristine") && config != nil && !old(allocated(config))
+//@   guard call applyChanges: [own-writes-onto-the-copy] called("copyPristine") && called("mergeConfigWithExternal") && arg0 == config && arg1 == t.changes[snapName]
+//@   guard call purgeNulls: [nulls-removed-from-the-copy] called("applyChanges") && arg0v == config
+//@   guard call getFromConfig: [reads-the-merged-copy] called("purgeNulls") && arg0 == snapName && arg1 == subkeys && arg2 == 0 && arg3 == config
+//@   ensures [nothing-committed] !called("(*State).Set") && !called("Commit")
+
+// ---- writing ------------------------------------------------------------------------------------
+
+//@ func PatchConfig
+//@   props C29
+//@   ensures [leaf-write-succeeds] forall m cacheMap :: {iface(m)} config == iface(m) && m != nil && pos + 1 == len(subkeys) ==> result1 == nil
+//@   ensures [leaf-write-same-map] forall m cacheMap :: {iface(m)} config == iface(m) && m != nil && pos + 1 == len(subkeys) ==> result0 == config
+//@   ensures [leaf-write-has] forall m cacheMap :: {iface(m)} config == iface(m) && m != nil && pos + 1 == len(subkeys) ==> has(m, subkeys[pos])
+//@   ensures [leaf-write] forall m cacheMap :: {iface(m)} config == iface(m) && m != nil && pos + 1 == len(subkeys) ==> m[subkeys[pos]] == iface(value)
+//@   ensures [leaf-write-touches-one-option] forall m cacheMap :: {iface(m)} config == iface(m) && m != nil && pos + 1 == len(subkeys) ==> forall j string :: j != subkeys[pos] ==> has(m, j) == old(has(m, j)) && m[j] == old(m[j])
+//@   guard call PatchConfig: [same-path-same-value] arg0 == snapName && arg1 == subkeys && arg4 == value && (arg2 == pos || arg2 == pos + 1)
+
+//@ func (*Transaction).Set
+//@   props C29
+//@   ensures [flat-write-recorded] result == nil && len(final(subkeys)) == 1 ==> has(t.changes, instanceName) && has(t.changes[instanceName], final(subkeys)[0]) && tag(t.changes[instanceName][final(subkeys)[0]]) == tag(iface(t.pristine[instanceName][key]))
+//@   guard call PatchConfig: [patches-own-write-cache] arg0 == instanceName && arg1 == subkeys && arg2 == 0 && arg3v == config && config != nil
+//@   guard mapstore Transaction.changes: [own-instance] key == instanceName && val == config
+//@   ensures [nothing-committed] !called("(*State).Set") && !called("Commit")
+
+// ---- null purging ---------------------------------------------------------------------------------
+
+// a nil value (what a JSON null decodes to) and a nil raw message are purged, and an option whose value is purged
+// is deleted from the map that holds it
+//@ func purgeNulls
+//@   props C29
+//@   ensures [nil-is-purged] config == nil ==> result == nil
+//@   ensures [nil-raw-is-purged] forall p *json.RawMessage :: {iface(p)} config == iface(p) && p == nil ==> result == nil
+//@   loop 0: step [nil-raw-option-removed] v == nil ==> !has(config, k)
+//@   loop 1: step [null-option-removed] v == nil ==> !has(config, k)
+
+// ---- committing ---------------------------------------------------------------------------------
+
+//@ func NewTransaction
+//@   props C29
+//@   guard call (*State).Get: [snapshot-of-committed-config] arg0 == st && arg1 == "config" && len(transaction.pristine) == 0
+
+//@ func (*Transaction).Commit
+//@   props C29
+//@   guard call (*State).Get: [latest-committed-config] arg0 == t.state && arg1 == "config"
+//@   guard call (*State).Get: [decode-target-empty] len(t.pristine) == 0
+//@   guard store Transaction.pristine: [only-before-merging] !called("applyChanges") && !called("(*State).Set")
+//@   guard call applyChanges: [written-options-onto-latest] called("(*State).Get") && !called("(*State).Set") && arg1 == snapChanges && (t.pristine[instanceName] != nil ==> arg0 == t.pristine[instanceName])
+//@   guard mapstore Transaction.pristine: [merged-entry-of-written-instance] key == instanceName && val == config
+//@   guard call (*State).Set: [stores-the-merged-latest] called("(*State).Get") && arg0 == t.state && arg1 == "config" && arg2v == t.pristine
+//@   guard store Transaction.changes: [cache-reset-after-store] called("(*State).Set")
+//@   ensures [cache-flushed] len(t.changes) == 0
+
+// the transaction's view of the committed configuration is replaced only by Commit (and set up by NewTransaction)
+//@ fieldguard [C29] Transaction.pristine: infunc("Commit") || infunc("NewTransaction")
+//@ fieldguard [C29] Transaction.changes: infunc("Commit") || infunc("NewTransaction")
+
+// ---- per-revision snapshots -----------------------------------------------------------------------
+
+//@ define revKey(r snap.Revision) = ite(r.N == 0, "unset", ite(r.N > 0, strconv.Itoa(r.N), "x" + strconv.Itoa(-r.N)))
+
+// govc's map references carry no Go type: that the table of a snap's snapshots (or the configuration table) and
+// one of its entries are different objects is given by Go's typing and appears here as an explicit hypothesis.
+
+//@ func SaveRevisionConfig
+//@   props C29
+//@   guard call (*State).Get: [reads-config-then-snapshots] arg0 == st && (arg1 == "config" || (arg1 == "revision-config" && called("(*State).Get")))
+//@   guard call (*State).Set: [snapshot-is-the-committed-config] arg0 == st && arg1 == "revision-config" && arg2v == revisionConfig && (cfgs != revisionConfig ==> has(revisionConfig, snapName) && has(revisionConfig[snapName], revKey(rev)) && revisionConfig[snapName][revKey(rev)] == snapcfg)
+
+//@ func RestoreRevisionConfig
+//@   props C29
+//@   guard call (*State).Set: [restores-the-snapshot] arg0 == st && arg1 == "config" && arg2v == config && (config != revisionConfig && config != cfg ==> has(revisionConfig, snapName) && has(revisionConfig[snapName], revKey(rev)) && has(config, snapName) && config[snapName] == revisionConfig[snapName][revKey(rev)])
+
+//@ func DiscardRevisionConfig
+//@   props C29
+//@   guard call (*State).Set: [snapshot-gone] arg0 == st && arg1 == "revision-config" && arg2v == revisionConfig && (revCfgs != revisionConfig ==> !(has(revisionConfig, snapName) && has(revisionConfig[snapName], revKey(rev))))
